@@ -144,6 +144,64 @@ def run(rng):
     return case, fails, rep
 
 
+def fit_case(rng):
+    """BARTMAP.fit as a whole against the model (Bartmap_fit.v): square grid matrices in which every row and every
+    column contains a 0 and a 1 (so that both modules' normalisation is the identity and the whole run is exact in
+    binary64), Fuzzy ART row and column modules with dyadic parameters, one epoch, fresh instance.  The row veto's
+    verdict for every row is taken from the implementation's own match_criterion_bin after the fit (the column
+    clustering is final by then) and handed to the model as its oracle."""
+    import artlib
+    import basefam as B
+    from fractions import Fraction
+    from common import q, qlist, qmat
+    n = rng.randrange(3, 8)
+    X = np.array([[rng.randrange(0, 9) / 8 for _ in range(n)] for _ in range(n)])
+    p0 = rng.sample(range(n), n)
+    sh = rng.randrange(1, n)
+    for i in range(n):
+        X[i, p0[i]] = 0.0
+        X[i, p0[(i + sh) % n]] = 1.0
+    if not (all(r.min() == 0.0 and r.max() == 1.0 for r in X) and all(c.min() == 0.0 and c.max() == 1.0 for c in X.T)):
+        return None, [], None
+    if rng.random() < 0.3:
+        j = rng.randrange(n)
+        X[:, j] = X[:, (j + 1) % n]            # duplicated columns: column clusters with several members
+        if not (all(r.min() == 0.0 and r.max() == 1.0 for r in X) and all(c.min() == 0.0 and c.max() == 1.0 for c in X.T)):
+            return None, [], None
+    pa = dict(rho=rng.choice([0.0, 0.25, 0.5, 0.75]), alpha=1 / 1024, beta=rng.choice([1.0, 0.5]))
+    pb = dict(rho=rng.choice([0.0, 0.25, 0.5, 0.625]), alpha=1 / 1024, beta=rng.choice([1.0, 0.5]))
+    eta = rng.choice([-1.0, 0.0, 0.25, 0.5, 0.9])
+    est = artlib.BARTMAP(artlib.FuzzyART(**pa), artlib.FuzzyART(**pb), eta=float(eta))
+    rep = {"X": X.tolist(), "eta": eta, "shape": [n, n], "module_a": pa, "module_b": pb, "max_iter": 1, "whole_fit_against_model": True}
+    ok = True
+    try:
+        with np.errstate(all="ignore"), contextlib.redirect_stdout(io.StringIO()), C.time_limit(20):
+            est.fit(X)
+    except Exception as e:
+        ok = False
+        if not (isinstance(e, ValueError) and "length at least 2" in str(e)):
+            return None, [{"signature": "BARTMAP.fit/raises", "text": f"fit on a {n}x{n} matrix raises {type(e).__name__}: {str(e)[:80]}", "replay": rep}], rep
+        return None, [{"signature": "BARTMAP.fit/singleton-column-cluster-ValueError", "text": f"fit on a {n}x{n} matrix raises {type(e).__name__}: {str(e)[:80]}", "replay": rep}], rep
+    vk = []
+    for k in range(n):
+        try:
+            with np.errstate(all="ignore"):
+                vk.append(bool(est.match_reset_func(None, None, 0, est.module_a.params, {"k": k}, None)))
+        except Exception:
+            vk.append(True)
+    Xa = [[Fraction(float(x)) for x in r] for r in est.module_a.prepare_data(X)]
+    Xb = [[Fraction(float(x)) for x in r] for r in est.module_b.prepare_data(X.T)]
+    sa, sb = B.snapshot(est.module_a), B.snapshot(est.module_b)
+    snap = lambda s_: f"(mkSnap {qmat(s_['W'])} {natlist(s_['labels'])} {natlist(s_['wsc'])} {s_['sc']}%nat {qlist(s_['rho'])})"
+    ks = lambda p_: f"(KFuzzy {q(p_['alpha'])} {q(p_['beta'])})"
+    R, Cc = np.asarray(est.rows_), np.asarray(est.columns_)
+    case = (f"(mkBF {ks(pa)} {qlist([pa['rho']])} {ks(pb)} {qlist([pb['rho']])} {qmat(Xa)} {qmat(Xb)} {boollist(vk)} true "
+            f"{snap(sa)} {snap(sb)} {coq_list([boollist(r) for r in R.tolist()])} {coq_list([boollist(r) for r in Cc.tolist()])})")
+    rep["row_veto"] = vk
+    rep["row_clusters"], rep["column_clusters"] = int(est.n_row_clusters), int(est.n_column_clusters)
+    return case, [], rep
+
+
 def main():
     tier = sys.argv[1] if len(sys.argv) > 1 else "quick"
     seed = C.seed_from_env()
@@ -160,16 +218,27 @@ def main():
         if case:
             strs.append(case); summ.append(rep)
     codes, bad = flow.coq_corr("C17", "RunBart", strs, shard=150, check_fn="bartcheck")
-    for b in bad:
+    # whole fit calls against the model
+    rng_f = C.make_rng(seed, "C17-fit")
+    fstrs, fsumm = [], []
+    for _ in range(400 if tier == "quick" else 4000):
+        case, f, rep = fit_case(rng_f)
+        fails.extend(f)
+        if case:
+            fstrs.append(case); fsumm.append(rep)
+    fcodes, fbad = flow.coq_corr("C17f", "RunBartFit", fstrs, shard=50, check_fn="bfcheck", extra_imports="From ARTcorr Require Import RunBase.\n")
+    for b in bad + fbad:
         v.notes.append("coq shard failed: " + b[-600:])
-    flow.decide(v, "C17", gate_ok, ob, list(zip(codes, summ)), fails, None)
+    flow.decide(v, "C17", gate_ok, ob, list(zip(codes, summ)) + list(zip(fcodes, fsumm)), fails, None)
     v.cov.update({
         "evaluations": n, "distinct_nontrivial": len(set(C.case_hash(s) for s in summ)),
         "rule": "random 2-7 x 2-7 matrices (60% square), 40% on an instance already fitted on another same-shape matrix, correlated columns in 30%, eta in {-1, 0, 0.5, 0.9}, Fuzzy ART row/column modules at several vigilances; "
                 "non-trivial = distinct matrix on which fit completed",
-        "traces_validated_against_impl": sum(1 for x in codes if x == 0), "distribution": shapes, "samples": summ[:1]})
-    v.assumptions = ["the theorems are about the construction of rows_/columns_ from labels in range; the row veto (Pearson correlation) is not modelled: "
-                     "it fails on non-square matrices (known finding) and scipy's pearsonr is third-party"]
+        "traces_validated_against_impl": sum(1 for x in codes + fcodes if x == 0), "whole_fit_calls_against_model": len(fstrs),
+        "whole_fit_vetoed_rows": sum(1 for r in fsumm for b in r["row_veto"] if not b), "whole_fit_multi_row_clusters": sum(1 for r in fsumm if r["row_clusters"] >= 2), "distribution": shapes, "samples": summ[:1]})
+    v.assumptions = ["the row veto (scipy's Pearson correlation against eta) is an oracle of the model: a function of the row number, taken from the implementation "
+                     "in the correspondence and universally quantified in the theorems; it fails on non-square matrices (known finding)",
+                     "whole-fit theorems and correspondence: one epoch, modules with the generic search (the exact regime uses Fuzzy ART on square grid matrices)"]
     sys.exit(v.finish())
 
 
